@@ -244,6 +244,21 @@ def metaops_events(job, rng, out):
                   "nodes": node_meta(r), "cerr": False, "gi": i}
             if ev["nodes"]:
                 out.write(ev, nontrivial_key=[tr], outcome="ok", sample={"result": tr})
+        # integer-valued string operations folded on constants vs their symbolic form: same declared width
+        sa = rng.choice(["", "a", "abcabc", "x\x00y", "hello world"])
+        sb = rng.choice(["", "a", "bc", "zz"])
+        wi = rng.choice([8, 16, 32, 64, 65])
+        k = rng.choice([0, 1, len(sa), len(sa) + 1, 7, (1 << wi) - 1])
+        ss = claripy.StringS("s", explicit_name=True)
+        for opn, mk in (("StrIndexOf", lambda a: claripy.StrIndexOf(a, claripy.StringV(sb), claripy.BVV(k & ((1 << wi) - 1), wi))),
+                        ("StrLen", lambda a: claripy.StrLen(a)), ("StrToInt", lambda a: claripy.StrToInt(a))):
+            o1, rf = guarded(lambda: mk(claripy.StringV(sa)))
+            o2, rs = guarded(lambda: mk(ss))
+            if o2 != "ok":
+                continue
+            out.write({"k": "strw", "op": opn, "out": o1, "lenf": (rf.length or 0) if o1 == "ok" else 0, "lend": rs.length or 0,
+                       "iw": wi, "start": k, "sa": sa, "sb": sb}, nontrivial_key=[opn, sa, sb, wi, k], outcome=o1,
+                      sample={"op": opn, "string": sa, "index_width": wi})
 
 
 def fpmeta_events(job, rng, out):
